@@ -692,7 +692,12 @@ impl Network {
                         }
 
                         if let Some(old) = &valid_scratchpad {
-                            if old.count() >= scratchpad.count() {
+                            // equal counters (a forked scratchpad): pick by content hash, so that the
+                            // result does not depend on the iteration order of the result map
+                            let keep_old = old.count() > scratchpad.count()
+                                || (old.count() == scratchpad.count()
+                                    && old.encrypted_data_hash() >= scratchpad.encrypted_data_hash());
+                            if keep_old {
                                 info!(
                                     "Rejecting Scratchpad for {pretty_key} with lower count than the previous one"
                                 );
